@@ -23,14 +23,21 @@ pub broadcast axiom fn axiom_blake2b_len(outlen: nat, key: Seq<u8>, salt: Seq<u8
         #[trigger] blake2b_spec(outlen, key, salt, personal, msg).len() == outlen,
 ;
 
-/// HSalsa20(key, input16, constants) — Salsa20 core without the final addition, words 0,5,10,15,6,7,8,9.
-pub uninterp spec fn hsalsa20_spec(key: Seq<u8>, input: Seq<u8>, consts: Option<(u32, u32, u32, u32)>) -> Seq<u8>;
+/// HSalsa20(key, input16, constants) — Salsa20 core without the final addition, words 0,5,10,15,6,7,8,9:
+/// the definition written from the Salsa20 specification in spec_cores.rs (the real function is proved equal to it)
+pub open spec fn hsalsa20_spec(key: Seq<u8>, input: Seq<u8>, consts: Option<(u32, u32, u32, u32)>) -> Seq<u8> {
+    crate::spec_cores::hsalsa20_rfc(key, input, consts)
+}
 
-/// HChaCha20(key, input16, constants) — draft-irtf-cfrg-xchacha §2.2.
-pub uninterp spec fn hchacha20_spec(key: Seq<u8>, input: Seq<u8>, consts: Option<(u32, u32, u32, u32)>) -> Seq<u8>;
+/// HChaCha20(key, input16, constants) — draft-irtf-cfrg-xchacha §2.2 (definition in spec_cores.rs)
+pub open spec fn hchacha20_spec(key: Seq<u8>, input: Seq<u8>, consts: Option<(u32, u32, u32, u32)>) -> Seq<u8> {
+    crate::spec_cores::hchacha20_rfc(key, input, consts)
+}
 
-/// SipHash-2-4 (Aumasson–Bernstein) 8-byte output.
-pub uninterp spec fn siphash24_spec(key: Seq<u8>, msg: Seq<u8>) -> Seq<u8>;
+/// SipHash-2-4 (Aumasson–Bernstein) 8-byte output (definition in spec_cores.rs)
+pub open spec fn siphash24_spec(key: Seq<u8>, msg: Seq<u8>) -> Seq<u8> {
+    crate::spec_cores::siphash24_rfc(key, msg)
+}
 
 /// HMAC-SHA-512-256 (RFC 2104 over SHA-512, truncated to 32 bytes), key zero-padded to the 128-byte block.
 pub open spec fn hmac_pad(key: Seq<u8>, pad: u8) -> Seq<u8> {
